@@ -162,19 +162,28 @@ Expect(c, a) ==
       [] c = "Swap"        -> [u EXCEPT ![a.k] = u[a.o], ![a.o] = u[a.k]]
       [] OTHER             -> u
 
-(* [variant.relops] *)
+(* [variant.relops]: each of the six operators applies THE SAME operator of the held alternative when both operands hold
+   the same alternative ("get<i>(v) <= get<i>(w)" etc.); none is derived from another.  That matters for alternatives whose
+   values are only partially ordered (a double holding NaN): the payload fixtures of the harness treat the value UNORD as
+   unordered with everything (itself included): ==, <, >, <=, >= are false, != is true.  The scripts never give UNORD to
+   the int alternative. *)
+UNORD == 7777
+ElemRel(rel, a, b) ==
+    IF a = UNORD \/ b = UNORD THEN rel = "ne"
+    ELSE CASE rel = "eq" -> a = b [] rel = "ne" -> a # b [] rel = "lt" -> a < b
+           [] rel = "gt" -> a > b [] rel = "le" -> a <= b [] rel = "ge" -> a >= b
 RelRes(rel, x, y) ==
     LET vx == IsVl(x)  vy == IsVl(y) IN
-    CASE rel = "eq" -> IF x.alt # y.alt \/ vx # vy THEN FALSE ELSE IF vx THEN TRUE ELSE x.val = y.val
-      [] rel = "ne" -> IF x.alt # y.alt \/ vx # vy THEN TRUE ELSE IF vx THEN FALSE ELSE x.val # y.val
+    CASE rel = "eq" -> IF x.alt # y.alt \/ vx # vy THEN FALSE ELSE IF vx THEN TRUE ELSE ElemRel("eq", x.val, y.val)
+      [] rel = "ne" -> IF x.alt # y.alt \/ vx # vy THEN TRUE ELSE IF vx THEN FALSE ELSE ElemRel("ne", x.val, y.val)
       [] rel = "lt" -> IF vy THEN FALSE ELSE IF vx THEN TRUE ELSE IF x.alt < y.alt THEN TRUE
-                       ELSE IF x.alt > y.alt THEN FALSE ELSE x.val < y.val
+                       ELSE IF x.alt > y.alt THEN FALSE ELSE ElemRel("lt", x.val, y.val)
       [] rel = "gt" -> IF vx THEN FALSE ELSE IF vy THEN TRUE ELSE IF x.alt > y.alt THEN TRUE
-                       ELSE IF x.alt < y.alt THEN FALSE ELSE x.val > y.val
+                       ELSE IF x.alt < y.alt THEN FALSE ELSE ElemRel("gt", x.val, y.val)
       [] rel = "le" -> IF vx THEN TRUE ELSE IF vy THEN FALSE ELSE IF x.alt < y.alt THEN TRUE
-                       ELSE IF x.alt > y.alt THEN FALSE ELSE x.val <= y.val
+                       ELSE IF x.alt > y.alt THEN FALSE ELSE ElemRel("le", x.val, y.val)
       [] rel = "ge" -> IF vy THEN TRUE ELSE IF vx THEN FALSE ELSE IF x.alt > y.alt THEN TRUE
-                       ELSE IF x.alt < y.alt THEN FALSE ELSE x.val >= y.val
+                       ELSE IF x.alt < y.alt THEN FALSE ELSE ElemRel("ge", x.val, y.val)
 
 RECURSIVE SumSeq(_)
 SumSeq(s) == IF Len(s) = 0 THEN 0 ELSE Head(s) + SumSeq(Tail(s))
@@ -414,7 +423,7 @@ Quiescent == ~Open => /\ \A k \in K : Matches(k, v[k])
 
 (* the six relational operators are the lexicographic order on (valueless first, index, value) *)
 KeyLess(x, y) == x.alt < y.alt \/ (x.alt = y.alt /\ x.val < y.val)
-RelLaws == (Present(v[1]) /\ Present(v[2])) =>
+RelLaws == (Present(v[1]) /\ Present(v[2]) /\ v[1].val # UNORD /\ v[2].val # UNORD) =>      \* a total order unless a value is unordered
     LET x == v[1]  y == v[2] IN
     /\ RelRes("lt", x, y) = KeyLess(x, y)
     /\ RelRes("gt", x, y) = KeyLess(y, x)
